@@ -16,28 +16,36 @@ theorem handle_first_match (cmds : List (Cmd Args)) (data : Bytes) (i : Nat) (a 
     handle cmds data = .call i a intr ↔
       ∃ c, cmds[i]? = some c ∧ c.parse data = some a ∧ intr = c.interrupt ∧
         ∀ j, j < i → ∀ c', cmds[j]? = some c' → c'.parse data = none := by
-  sorry
+  unfold handle
+  rw [handleFrom_call_iff]
+  constructor
+  · rintro ⟨j, c, hi, hj, hp, hint, hall⟩
+    have : i = j := by omega
+    subst this
+    exact ⟨c, hj, hp, hint, hall⟩
+  · rintro ⟨c, hj, hp, hint, hall⟩
+    exact ⟨i, c, by omega, hj, hp, hint, hall⟩
 
 /-- no command matches ⇒ unknown; and conversely. -/
 theorem handle_unknown_iff (cmds : List (Cmd Args)) (data : Bytes) :
     handle cmds data = .unknown ↔ ∀ c ∈ cmds, c.parse data = none := by
-  sorry
+  exact handleFrom_unknown_iff cmds data 0
 
 /-- bytes that cannot be decoded do not match a text command (and do not raise): they fall
 through to the next command. -/
 theorem parse_undecodable (c : Cmd Args) (data : Bytes) (hk : c.kind = .text)
     (hbad : String.fromUTF8? (ByteArray.mk data.toArray) = none) : c.parse data = none := by
-  sorry
+  simp [Cmd.parse, convert, hk, hbad]
 
 /-- a bytes command sees the raw bytes; a text command sees the decoded, stripped text. -/
 theorem parse_bytes (c : Cmd Args) (data : Bytes) (hk : c.kind = .bytes) :
     c.parse data = c.matcher (.bytes data) := by
-  sorry
+  simp [Cmd.parse, convert, hk]
 
 theorem parse_text (c : Cmd Args) (data : Bytes) (hk : c.kind = .text) (s : String)
     (hs : String.fromUTF8? (ByteArray.mk data.toArray) = some s) :
     c.parse data = c.matcher (.text (pyStrip s.toList)) := by
-  sorry
+  simp [Cmd.parse, convert, hk, hs]
 
 /-- `strip` removes exactly the leading and trailing whitespace. -/
 theorem pyStrip_spec (s : List Char) :
@@ -45,7 +53,7 @@ theorem pyStrip_spec (s : List Char) :
       (∀ c ∈ post, pyIsSpace c = true) ∧
       (∀ c, (pyStrip s).head? = some c → pyIsSpace c = false) ∧
       (∀ c, (pyStrip s).getLast? = some c → pyIsSpace c = false) := by
-  sorry
+  exact strip_spec pyIsSpace s
 
 /-- one chunk, matched: the handler runs exactly once, the interrupt is raised iff the
 command is declared interrupting and after the handler, then every reply other than the
@@ -56,20 +64,20 @@ theorem tcpChunk_matched (cmds : List (Cmd Args)) (replies : Nat → Args → Li
     tcpChunk cmds replies pre post data =
       ConnEv.invoke i a :: ((if intr then [ConnEv.interrupt] else []) ++
         ((replies i a).filterMap id).map (fun r => ConnEv.write (pre ++ r ++ post))) := by
-  sorry
+  simp [tcpChunk, h, fmt]
 
 /-- one chunk, unmatched: no handler runs, no interrupt, exactly the unknown-command reply. -/
 theorem tcpChunk_unknown (cmds : List (Cmd Args)) (replies : Nat → Args → List (Option Bytes))
     (pre post : Bytes) (data : Bytes) (h : handle cmds data = .unknown) :
     tcpChunk cmds replies pre post data = [ConnEv.write (pre ++ unknownReply.toUTF8.toList ++ post)] := by
-  sorry
+  simp [tcpChunk, h, fmt]
 
 /-- a connection: chunks are handled in arrival order, each independently. -/
 theorem tcpConn_append (cmds : List (Cmd Args)) (replies : Nat → Args → List (Option Bytes))
     (pre post : Bytes) (cs1 cs2 : List Bytes) :
     tcpConn cmds replies pre post (cs1 ++ cs2) =
       tcpConn cmds replies pre post cs1 ++ tcpConn cmds replies pre post cs2 := by
-  sorry
+  simp [tcpConn]
 
 /-- the number of handler invocations on a connection never exceeds the number of chunks,
 and interrupts never exceed invocations. -/
@@ -79,6 +87,7 @@ theorem tcpConn_counts (cmds : List (Cmd Args)) (replies : Nat → Args → List
     (evs.filter (fun e => match e with | .invoke _ _ => true | _ => false)).length ≤ cs.length ∧
     (evs.filter (fun e => match e with | .interrupt => true | _ => false)).length ≤
       (evs.filter (fun e => match e with | .invoke _ _ => true | _ => false)).length := by
-  sorry
+  exact conn_counts cmds replies pre post cs _ _ (fun _ _ => rfl) rfl (fun _ => rfl)
+    (fun _ _ => rfl) (fun _ => rfl)
 
 end Tickit
